@@ -2,6 +2,7 @@ package main
 
 import (
 	"encoding/json"
+	"math"
 	"strings"
 	"unicode"
 	"unicode/utf8"
@@ -163,6 +164,45 @@ func textOutcome(text string) (out map[string]interface{}) {
 	return map[string]interface{}{"table": route.VerifDump(t, false)}
 }
 
+// defsJSON writes the wire format of the custom backend by hand (field names as documented for
+// registry.custom: cmd, service, src, dst, weight, tags, opts), not through route.RouteDef's own tags.
+func defsJSON(ds []rt.Def) ([]byte, bool) {
+	arr := make([]map[string]interface{}, 0, len(ds))
+	for i := range ds {
+		d := ds[i].RouteDef()
+		if math.IsNaN(d.Weight) || math.IsInf(d.Weight, 0) {
+			return nil, false
+		}
+		m := map[string]interface{}{"cmd": string(d.Cmd), "service": d.Service, "src": d.Src, "dst": d.Dst, "weight": d.Weight}
+		if len(d.Tags) > 0 {
+			m["tags"] = d.Tags
+		}
+		if len(d.Opts) > 0 {
+			m["opts"] = d.Opts
+		}
+		arr = append(arr, m)
+	}
+	b, err := json.Marshal(arr)
+	return b, err == nil
+}
+
+func jsonOutcome(body []byte) (out map[string]interface{}) {
+	defer func() {
+		if p := recover(); p != nil {
+			out = map[string]interface{}{"panic": true}
+		}
+	}()
+	var defs *[]route.RouteDef
+	if err := json.Unmarshal(body, &defs); err != nil {
+		return map[string]interface{}{"error": "decode: " + err.Error()}
+	}
+	t, err := route.NewTableCustom(defs)
+	if err != nil {
+		return map[string]interface{}{"error": errClass(err)}
+	}
+	return map[string]interface{}{"table": route.VerifDump(t, false)}
+}
+
 func runScript(in *scriptIn) (interface{}, error) {
 	out := applyDefs(in.Defs)
 	// variant 1: the last add, repeated immediately
@@ -197,6 +237,12 @@ func runScript(in *scriptIn) (interface{}, error) {
 		src := scriptText(in.Defs)
 		out["viaText"] = textOutcome(src)
 		out["viaTextSrc"] = src // compared with the model's writer (`scriptText` in Model/C05Lang.lean)
+	}
+	// variant 4: the commands as the custom backend receives them — a JSON array decoded into []route.RouteDef
+	// through the struct tags of route/route_def.go — must give the same outcome (finite weights only: JSON has
+	// no NaN/Inf)
+	if body, ok := defsJSON(in.Defs); ok {
+		out["viaJSON"] = jsonOutcome(body)
 	}
 	out["oracle"] = in.Oracle
 	out["defs"] = in.Defs // with the exact rationals of the weights filled in
